@@ -115,7 +115,8 @@ def cmd_verify(args):
         for c in checks:
             t0 = time.time()
             rc, out = sh([PY, os.path.join(VERIF, "run.py"), c, "--tier", args.tier], cwd=VERIF,
-                         env={"VERIF_REPO": wt, "VERIF_EVIDENCE_DIR": os.path.join(wt, "_evidence")})
+                         env={"VERIF_REPO": wt, "VERIF_EVIDENCE_DIR": os.path.join(wt, "_evidence"),
+                              "VERIF_REPLAY_DIR": os.path.join(wt, "_replays")})
             viol = re.findall(r"^VIOLATION .*$", out, re.M)
             first = re.findall(r"^  # .*$", out, re.M)[:2]
             res["checks"]["%s:%s" % (c, args.tier)] = {"exit": rc, "violation_lines": len(viol),
